@@ -14,8 +14,10 @@ package simrt
 import (
 	"encoding/binary"
 	"iter"
+	"os"
 	"runtime"
 	"slices"
+	"strings"
 	"syscall"
 	"time"
 	"unsafe"
@@ -109,6 +111,7 @@ func Start(s uint64, start time.Time) {
 	mapCtr = 0
 	ioCtr = 0
 	ticker = nil
+	failSuffix, failLeft, failCount = "", 0, 0
 }
 
 //go:norace
@@ -572,4 +575,41 @@ func IOPoint(site string) {
 	if ioArmed && ioHook != nil {
 		ioHook(site, ioCtr)
 	}
+}
+
+// ---- disk error injection ----------------------------------------------------
+
+var (
+	failSuffix string
+	failLeft   int
+	failCount  int
+)
+
+// FailCreates makes the next n file creations whose name ends in suffix fail
+// with ENOSPC (n < 0: until cleared with n = 0). Controller side.
+//
+//go:norace
+func FailCreates(suffix string, n int) { failSuffix, failLeft = suffix, n }
+
+//go:norace
+func FailedCreates() int { return failCount }
+
+//go:norace
+func shouldFailCreate(name string) bool {
+	if !active || failLeft == 0 || failSuffix == "" || !strings.HasSuffix(name, failSuffix) {
+		return false
+	}
+	if failLeft > 0 {
+		failLeft--
+	}
+	failCount++
+	return true
+}
+
+// OSCreate replaces os.Create in the instrumented packages.
+func OSCreate(name string) (*os.File, error) {
+	if shouldFailCreate(name) {
+		return nil, &os.PathError{Op: "open", Path: name, Err: syscall.ENOSPC}
+	}
+	return os.Create(name)
 }
